@@ -135,6 +135,8 @@ func (m *modset) coarse(key string) bool {
 	if m.scalarElems && (strings.HasPrefix(key, "E_") || strings.HasPrefix(key, "B_")) {
 		// scalar element / box heaps are named after an SMT sort, not a package type
 		switch {
+		case strings.HasPrefix(rest, "b_"):
+			return true
 		case strings.HasPrefix(rest, "Int"), strings.HasPrefix(rest, "Bool"), strings.HasPrefix(rest, "String"),
 			strings.HasPrefix(rest, "Slice"), strings.HasPrefix(rest, "Iface"), strings.HasPrefix(rest, "__"), strings.HasPrefix(rest, "_Array"), strings.HasPrefix(rest, "arr_"):
 			return true
@@ -273,7 +275,20 @@ func (w *world) modsetOf(fn *ssa.Function) *modset {
 
 func (w *world) contractFor(fn *ssa.Function) *funcContract {
 	pp, k := funcKey(fn)
-	return w.cs.funcs[pp+"::"+k]
+	fc := w.cs.funcs[pp+"::"+k]
+	if fc != nil && !contractMatches(fc, fn) {
+		// the function's signature no longer matches the contract header: the contract
+		// is stale and is ignored (callers fall back to the inferred frame)
+		w.stale[shortPkg(pp)+"."+k] = true
+		return nil
+	}
+	return fc
+}
+
+// contractMatches: parameter and result counts of the contract header equal the
+// function's.
+func contractMatches(fc *funcContract, fn *ssa.Function) bool {
+	return len(fc.params) == fn.Signature.Params().Len() && len(fc.results) == fn.Signature.Results().Len()
 }
 
 func (w *world) instrMods(kg *fgen, in ssa.Instruction, ms *modset) {
@@ -524,6 +539,28 @@ func (g *fgen) modKeys(fc *funcContract, item string) (map[string]modEntry, erro
 	if strings.HasPrefix(item, "elems(") && strings.HasSuffix(item, ")") {
 		elems = true
 		item = item[6 : len(item)-1]
+		if strings.HasPrefix(item, "[]") || strings.HasPrefix(item, "map[") {
+			// type-level: every slice / map of this type
+			ct, err := parseTypeString(item)
+			if err != nil {
+				return nil, err
+			}
+			t, err := g.resolveType(ct, pkg)
+			if err != nil {
+				return nil, err
+			}
+			switch u := t.Underlying().(type) {
+			case *types.Slice:
+				esl := &sloc{root: rootElem, rootT: g.elemKeyName(u.Elem()), typ: u.Elem()}
+				g.slocLeaves(esl, nil, u.Elem(), out)
+			case *types.Map:
+				h, v, l := g.mapKeys(u)
+				out[h] = modEntry{rootField, nil, u}
+				out[v] = modEntry{rootField, nil, u}
+				out[l] = modEntry{rootField, nil, u}
+			}
+			return out, nil
+		}
 	}
 	parts := strings.Split(item, ".")
 	var cur types.Type
